@@ -130,6 +130,10 @@ M = [
       old="__FROM_PATCH__", new="", expect="c04.mode|int::add::<impl core::ops::AddAssign<&int::Int<_>> for int::Int<_>>::add_assign", patch="/verif/seeded/C04c/patch.diff"),
  dict(name="boxed_random_bits_rounded_guard", prop="C19", file="src/uint/boxed/rand.rs",
       old="__FROM_PATCH__", new="", expect="c19.bitguard|uint::boxed::rand", patch="/verif/seeded/C19b/patch.diff"),
+ dict(name="boxed_inv_mod_wrong_flag_dropped", prop="C10", file="src/uint/boxed/inv_mod.rs",
+      old="__FROM_PATCH__", new="", expect="c10.flag|uint::boxed::inv_mod::<impl uint::boxed::BoxedUint>::inv_mod|inv_mod2k|recv=_1", patch="/verif/seeded/C10b/patch.diff"),
+ dict(name="boxed_widen_subslice", prop="C12", file="src/uint/boxed.rs",
+      old="__FROM_PATCH__", new="", expect="c12.vpfn|uint::boxed::BoxedUint::widen", patch="/verif/seeded/C12e/patch.diff"),
  # --- C19
  dict(name="random_mod_core_polarity", prop="C19", file="src/uint/rand.rs",
       old="        if n.ct_lt(modulus).into() {\n            break;", new="        if !bool::from(n.ct_lt(modulus)) {\n            break;",
